@@ -2,18 +2,18 @@
   C01 proofs, layer 5e: the concrete canonical update (`stepCanon`) and side condition (`GoodStep`) per section
   kind, and `step_ok`: every kind in `wholeKinds` has the uniform round-trip shape `StepRT`.
 -/
-import PyTough.Proofs.T2WholeKinds3
+import PyTough.Proofs.T2Whole2Kinds
 namespace Proofs.T2
 open Py Model Model.T2 Proofs Proofs.Incon
 open Gen.Sections (Rec)
 
 /-! ### the concrete canonical update and side condition per kind -/
 
-/-- the section kinds composed so far -/
+/-- the section kinds composed: all 23 -/
 def wholeKinds : List Str :=
   [c!"ROCKS", c!"PARAM", c!"MOMOP", c!"START", c!"NOVER", c!"ELEME", c!"CONNE", c!"GENER", c!"LINEQ", c!"SOLVR",
    c!"RPCAP", c!"TIMES", c!"SELEC", c!"INCON", c!"INDOM",
-   c!"MULTI", c!"DIFFU", c!"FOFT", c!"GOFT", c!"COFT"]
+   c!"MULTI", c!"DIFFU", c!"FOFT", c!"GOFT", c!"COFT", c!"MESHM", c!"SHORT", c!"SIMUL"]
 
 /-- what reading the section `kw` written for `d` does to the reader's object `d0` -/
 def stepCanon (d : T2Data) (kw : Str) (d0 : T2Data) : T2Data :=
@@ -41,6 +41,10 @@ def stepCanon (d : T2Data) (kw : Str) (d0 : T2Data) : T2Data :=
   else if kw = c!"GOFT" then { d0 with historyGen := canonHistory d.historyGen d0.blocks }
   else if kw = c!"COFT" then
     { d0 with historyConn := d.historyConn.map (fun i => { isObj := false, n1 := cycleName i.n1, n2 := cycleName i.n2 }) }
+  else if kw = c!"MESHM" then { d0 with meshmaker := d0.meshmaker ++ canonMeshMaker d.meshmaker }
+  else if kw = c!"SHORT" then
+    { d0 with short := (gsOf d.short).foldl ShortGrp.apply { d0.short with frequency := some (canonFreq d.short) } }
+  else if kw = c!"SIMUL" then { d0 with simulator := canonSimulator d }
   else d0
 
 /-- the side conditions of the section `kw` of `d` (those of its `section_roundtrip_…` theorem), on the reader's
@@ -83,6 +87,10 @@ def GoodStep (d : T2Data) (kw : Str) (d0 : T2Data) : Prop :=
   else if kw = c!"GOFT" then d.historyGen ≠ [] ∧ ∀ i ∈ d.historyGen, Visible i.name
   else if kw = c!"COFT" then d.historyConn ≠ [] ∧ (∀ i ∈ d.historyConn, Visible i.n1 ∧ i.n2.length = 5) ∧
     d0.blocks = [] ∧ d0.conns = []
+  else if kw = c!"MESHM" then d.meshmaker ≠ [] ∧ (∀ m ∈ d.meshmaker, GoodMeshEntry m) ∧
+    ∃ lss, d.meshmaker.mapM (writeMeshEntry mainTabs) = .ok lss
+  else if kw = c!"SHORT" then GoodShort d0.blocks d0.conns d0.gens d.short
+  else if kw = c!"SIMUL" then d.simulator ≠ [] ∧ canonSimulator d ≠ []
   else True
 
 theorem wholeKinds_sections : ∀ kw, kw ∈ wholeKinds → kw ∈ allSections := by decide +kernel
@@ -90,7 +98,7 @@ theorem wholeKinds_sections : ∀ kw, kw ∈ wholeKinds → kw ∈ allSections :
 theorem step_ok (d : T2Data) (kw : Str) (d0 : T2Data) (hk : kw ∈ wholeKinds) (hxp : XpFree d0) (hg : GoodStep d kw d0) :
     StepRT d kw d0 (stepCanon d kw d0) := by
   simp only [wholeKinds, List.mem_cons, List.not_mem_nil, or_false] at hk
-  rcases hk with rfl | rfl | rfl | rfl | rfl | rfl | rfl | rfl | rfl | rfl | rfl | rfl | rfl | rfl | rfl | rfl | rfl | rfl | rfl | rfl
+  rcases hk with rfl | rfl | rfl | rfl | rfl | rfl | rfl | rfl | rfl | rfl | rfl | rfl | rfl | rfl | rfl | rfl | rfl | rfl | rfl | rfl | rfl | rfl | rfl
   · exact stepRT_ROCKS d d0 hxp hg.1 hg.2
   · exact stepRT_PARAM d d0 hxp hg.1 hg.2.1 hg.2.2
   · exact stepRT_MOMOP d d0 hxp hg.1 hg.2
@@ -132,6 +140,9 @@ theorem step_ok (d : T2Data) (kw : Str) (d0 : T2Data) (hk : kw ∈ wholeKinds) (
   · exact stepRT_FOFT d d0 hxp hg.1 hg.2
   · exact stepRT_GOFT d d0 hxp hg.1 hg.2
   · exact stepRT_COFT d d0 hxp hg.1 hg.2.1 hg.2.2.1 hg.2.2.2
+  · exact stepRT_MESHM d d0 hxp hg.1 hg.2.1 hg.2.2
+  · exact stepRT_SHORT d d0 hxp hg
+  · exact stepRT_SIMUL d d0 hxp hg.1 hg.2
 
 theorem stepCanon_sections (d : T2Data) (kw : Str) (d0 : T2Data) : (stepCanon d kw d0).sections = d0.sections := by
   simp only [stepCanon, apply_ite T2Data.sections, canonParam, ite_self]
